@@ -86,7 +86,9 @@ func (x *Exec) assume(t Term) {
 // Memory access
 
 func (x *Exec) heapOf(t types.Type) (string, string) {
-	return heapName(t), ArraySort(SPtr, x.u.W.SortOf(t))
+	n := heapName(t)
+	x.u.W.heapTypes[n] = t
+	return n, ArraySort(SPtr, x.u.W.SortOf(t))
 }
 
 func (x *Exec) load(l *Loc, st *State) Value {
@@ -316,8 +318,8 @@ func (x *Exec) step1(in ssa.Instruction, st *State) {
 			x.obl("safety[index]", "safety", "array index in range", st, And(Ge(idx, IntLit(0)), Lt(idx, IntLit(t.Len()))))
 			x.regs[in] = Select(xv, idx)
 		case *types.Basic: // string
-			x.obl("safety[index]", "safety", "string index in range", st, And(Ge(idx, IntLit(0)), Lt(idx, app(SInt, "str.len", xv))))
-			r := app(SInt, "str.at", xv, idx)
+			x.obl("safety[index]", "safety", "string index in range", st, And(Ge(idx, IntLit(0)), Lt(idx, app(SInt, "s.len", xv))))
+			r := app(SInt, "s.at", xv, idx)
 			x.assume(And(Ge(r, IntLit(0)), Le(r, IntLit(255))))
 			x.regs[in] = r
 		default:
@@ -479,7 +481,7 @@ func (x *Exec) binop(in *ssa.BinOp, st *State) Value {
 	switch in.Op {
 	case token.ADD:
 		if isString(t) {
-			return app(SStr, "str.cat", a, b)
+			return app(SStr, "s.cat", a, b)
 		}
 		r := Add(a, b)
 		x.overflow(in, r, st)
@@ -508,22 +510,22 @@ func (x *Exec) binop(in *ssa.BinOp, st *State) Value {
 		return Not(x.eq(a, b, t))
 	case token.LSS:
 		if isString(t) {
-			return app(SBool, "str.lt", a, b)
+			return app(SBool, "s.lt", a, b)
 		}
 		return Lt(a, b)
 	case token.LEQ:
 		if isString(t) {
-			return Or(app(SBool, "str.lt", a, b), Eq(a, b))
+			return Or(app(SBool, "s.lt", a, b), Eq(a, b))
 		}
 		return Le(a, b)
 	case token.GTR:
 		if isString(t) {
-			return app(SBool, "str.lt", b, a)
+			return app(SBool, "s.lt", b, a)
 		}
 		return Gt(a, b)
 	case token.GEQ:
 		if isString(t) {
-			return Or(app(SBool, "str.lt", b, a), Eq(a, b))
+			return Or(app(SBool, "s.lt", b, a), Eq(a, b))
 		}
 		return Ge(a, b)
 	case token.AND, token.OR, token.XOR, token.SHL, token.SHR, token.AND_NOT:
@@ -597,6 +599,7 @@ func (x *Exec) indexAddr(in *ssa.IndexAddr, st *State) Value {
 
 func mapHeaps(w *World, mt *types.Map) (md, mv, mc string, ks, vs string) {
 	k := typeKey(mt)
+	w.heapTypes["MV."+k] = mt
 	ks, vs = w.SortOf(mt.Key()), w.SortOf(mt.Elem())
 	return "MD." + k, "MV." + k, "MC." + k, ks, vs
 }
@@ -626,8 +629,8 @@ func (x *Exec) lookup(in *ssa.Lookup, st *State) Value {
 	// string index
 	s := x.term(x.val(in.X))
 	idx := x.term(x.val(in.Index))
-	x.obl("safety[index]", "safety", "string index in range", st, And(Ge(idx, IntLit(0)), Lt(idx, app(SInt, "str.len", s))))
-	r := app(SInt, "str.at", s, idx)
+	x.obl("safety[index]", "safety", "string index in range", st, And(Ge(idx, IntLit(0)), Lt(idx, app(SInt, "s.len", s))))
+	r := app(SInt, "s.at", s, idx)
 	x.assume(And(Ge(r, IntLit(0)), Le(r, IntLit(255))))
 	return r
 }
@@ -678,7 +681,7 @@ func (x *Exec) makeMap(mt *types.Map, st *State) Value {
 
 func (x *Exec) mapLen(m Term, mt *types.Map, st *State) Term {
 	dom, _, cnt := x.mapParts(m, mt, st)
-	x.assume(Ge(cnt, IntLit(0)))
+	x.assume(And(Ge(cnt, IntLit(0)), Le(cnt, IntLit(1<<47))))
 	// empty iff count zero
 	ks := x.u.W.SortOf(mt.Key())
 	x.assume(Term{fmt.Sprintf("(=> (= %s 0) (forall ((k!q %s)) (not (select %s k!q))))", cnt.S, ks, dom.S), SBool})
@@ -717,12 +720,12 @@ func (x *Exec) rangeNext(in *ssa.Next, st *State) Value {
 	if it.IsStr {
 		// position strictly increases; rune is unknown
 		okv := w.Fresh("next.ok", SBool)
-		slen := app(SInt, "str.len", it.Str)
+		slen := app(SInt, "s.len", it.Str)
 		pos := it.N // current byte offset
 		x.assume(Eq(okv, Lt(pos, slen)))
 		width := w.Fresh("rune.w", SInt)
 		x.assume(And(Ge(width, IntLit(1)), Le(width, IntLit(4)), Implies(okv, Le(Add(pos, width), slen))))
-		rn := w.UF("str.runeAt", SInt, it.Str, pos)
+		rn := w.UF("s.runeAt", SInt, it.Str, pos)
 		x.assume(And(Ge(rn, IntLit(0)), Le(rn, IntLit(1114111))))
 		ni := *it
 		ni.N = Ite(okv, Add(pos, width), pos)
@@ -753,8 +756,8 @@ func (x *Exec) makeSlice(in *ssa.MakeSlice, st *State) Value {
 	l := x.term(x.val(in.Len))
 	c := x.term(x.val(in.Cap))
 	et := in.Type().Underlying().(*types.Slice).Elem()
-	x.obl("safety[make-len]", "safety", "makeslice: len out of range", st, And(Ge(l, IntLit(0)), Le(l, IntLit(1<<46))))
-	x.obl("safety[make-cap]", "safety", "makeslice: cap out of range", st, And(Ge(c, l), Le(c, IntLit(1<<46))))
+	x.obl("safety[make-len]", "safety", "makeslice: len out of range", st, And(Ge(l, IntLit(0)), Le(l, IntLit(1<<50))))
+	x.obl("safety[make-cap]", "safety", "makeslice: cap out of range", st, And(Ge(c, l), Le(c, IntLit(1<<50))))
 	base := x.newBase(st)
 	hn, hs := x.heapOf(et)
 	h := st.Heap(hn, hs)
@@ -804,13 +807,13 @@ func (x *Exec) sliceOp(in *ssa.Slice, st *State) Value {
 		if lo != nil {
 			l = *lo
 		}
-		h := app(SInt, "str.len", s)
+		h := app(SInt, "s.len", s)
 		if hi != nil {
 			h = *hi
 		}
-		x.obl("safety[slice-bounds]", "safety", "string slice bounds out of range", st, And(Le(zero, l), Le(l, h), Le(h, app(SInt, "str.len", s))))
-		r := app(SStr, "str.sub", s, l, h)
-		x.assume(Eq(app(SInt, "str.len", r), Sub(h, l)))
+		x.obl("safety[slice-bounds]", "safety", "string slice bounds out of range", st, And(Le(zero, l), Le(l, h), Le(h, app(SInt, "s.len", s))))
+		r := app(SStr, "s.sub", s, l, h)
+		x.assume(Eq(app(SInt, "s.len", r), Sub(h, l)))
 		return r
 	case *types.Pointer:
 		at := t.Elem().Underlying().(*types.Array)
@@ -964,7 +967,7 @@ func (x *Exec) convert(in *ssa.Convert, st *State) Value {
 			}
 			return r
 		case fb.Info()&types.IsInteger != 0 && tb.Info()&types.IsString != 0:
-			return w.UF("str.fromRune", SStr, v)
+			return w.UF("s.fromRune", SStr, v)
 		case fb.Info()&types.IsString != 0 && tb.Info()&types.IsString != 0:
 			return v
 		}
@@ -975,17 +978,17 @@ func (x *Exec) convert(in *ssa.Convert, st *State) Value {
 		base := x.newBase(st)
 		var l Term
 		if isByte(et) {
-			l = app(SInt, "str.len", v)
+			l = app(SInt, "s.len", v)
 			hn, hs := x.heapOf(et)
 			h := st.Heap(hn, hs)
-			x.assume(forallInt("i", IntLit(0), l, func(i Term) Term { return Eq(Select(h, MkPtr(base, i)), app(SInt, "str.at", v, i)) }))
+			x.assume(forallInt("i", IntLit(0), l, func(i Term) Term { return Eq(Select(h, MkPtr(base, i)), app(SInt, "s.at", v, i)) }))
 		} else {
-			l = w.UF("str.runeCount", SInt, v)
-			x.assume(And(Ge(l, IntLit(0)), Le(l, app(SInt, "str.len", v))))
-			x.assume(Implies(Gt(app(SInt, "str.len", v), IntLit(0)), Gt(l, IntLit(0))))
+			l = w.UF("s.runeCount", SInt, v)
+			x.assume(And(Ge(l, IntLit(0)), Le(l, app(SInt, "s.len", v))))
+			x.assume(Implies(Gt(app(SInt, "s.len", v), IntLit(0)), Gt(l, IntLit(0))))
 			hn, hs := x.heapOf(et)
 			h := st.Heap(hn, hs)
-			x.assume(forallInt("i", IntLit(0), l, func(i Term) Term { return Eq(Select(h, MkPtr(base, i)), w.UF("str.runeN", SInt, v, i)) }))
+			x.assume(forallInt("i", IntLit(0), l, func(i Term) Term { return Eq(Select(h, MkPtr(base, i)), w.UF("s.runeN", SInt, v, i)) }))
 		}
 		return MkSlice(MkPtr(base, IntLit(0)), l, l)
 	}
@@ -994,9 +997,9 @@ func (x *Exec) convert(in *ssa.Convert, st *State) Value {
 		hn, hs := x.heapOf(et)
 		h := st.Heap(hn, hs)
 		// string built from the slice contents: uninterpreted in (slice, heap)
-		r := w.UF("str.fromSlice."+typeKey(et), SStr, v, h)
+		r := w.UF("s.fromSlice."+typeKey(et), SStr, v, h)
 		if isByte(et) {
-			x.assume(Eq(app(SInt, "str.len", r), SlLen(v)))
+			x.assume(Eq(app(SInt, "s.len", r), SlLen(v)))
 		}
 		return r
 	}
